@@ -128,7 +128,7 @@ func acceptsGzip(header string) bool {
 		}
 		for _, param := range fields[1:] {
 			param = strings.TrimSpace(param)
-			if strings.HasPrefix(param, "q=") {
+			if strings.HasPrefix(param, "q=") || strings.HasPrefix(param, "Q=") { // (parameter names are case-insensitive)
 				if q, err := strconv.ParseFloat(param[2:], 64); err == nil && q == 0 {
 					return false
 				}
